@@ -149,13 +149,20 @@ void do_release(World& w, size_t i) {
 
 uintptr_t foreign_pointer(World& w, int64_t kind) {
   static int dummy;
-  switch (kind % 5) {
+  switch (kind % 6) {
+    case 5: {   // inside the initial padding of a block: memory of the allocator, but not an allocation
+      if (w.model.blocks.empty()) return 0x3000;
+      auto it = w.model.blocks.begin(); std::advance(it, long(size_t(kind / 6) % w.model.blocks.size()));
+      if (!it->second.padding_known || it->second.padding == 0) return 0x3000;
+      sim::count("c09.probe.pointer_into_padding");
+      return it->second.rx + uintptr_t(kind / 7) % it->second.padding;
+    }
     case 0: return 0;
     case 1: return uintptr_t(&dummy);
     case 2: { if (w.model.blocks.empty()) return 0x1000; uintptr_t p = w.model.blocks.begin()->second.rx - 64; return w.model.block_of(p) ? 0x1000 : p; }
     case 3: {   // one past the end of a block (== start of the next one when blocks are adjacent -> then skip)
       if (w.model.blocks.empty()) return 0x2000;
-      auto it = w.model.blocks.begin(); std::advance(it, long(size_t(kind / 5) % w.model.blocks.size()));
+      auto it = w.model.blocks.begin(); std::advance(it, long(size_t(kind / 6) % w.model.blocks.size()));
       uintptr_t p = it->second.rx + it->second.size;
       if (w.model.block_of(p)) { sim::count("c09.probe.adjacent_blocks"); return 0x2000; }
       return p;
@@ -237,12 +244,12 @@ void exec_op(World& w, const Op& op) {
       if (op.kind == kQueryForeign) {
         JitAllocator::Span q;
         Error err = a.query(Out(q), reinterpret_cast<void*>(p));
-        SIM_CHECK(err != Error::kOk, "c09:foreign-pointer-accepted", "query(%#zx) of a pointer outside every block succeeded", size_t(p));
+        SIM_CHECK(err != Error::kOk, "c09:foreign-pointer-accepted", "query(%#zx) of a pointer that is not inside any allocation succeeded", size_t(p));
         SIM_CHECK(q.rx() == nullptr, "c09:foreign-pointer-accepted", "failed query() returned a span");
       }
       else {
         Error err = a.release(reinterpret_cast<void*>(p));
-        SIM_CHECK(err != Error::kOk, "c09:foreign-pointer-accepted", "release(%#zx) of a pointer outside every block succeeded", size_t(p));
+        SIM_CHECK(err != Error::kOk, "c09:foreign-pointer-accepted", "release(%#zx) of a pointer that is not inside any allocation succeeded", size_t(p));
       }
       sim::logf("%s kind=%d rejected", op_name(op.kind), int(op.a[0] % 5));
       break;
